@@ -4,8 +4,47 @@ import msg_stream
 BOTH_BACKENDS = True
 
 
+def writer_version_probe(ctx):
+    """writer direction for `IR.version`: the message field `version` is the
+    attribute (whatever its value), the file header carries this API's
+    protobuf version. (An IR with another version cannot be loaded back - C17
+    demands its rejection - so the round-trip streams never see one.)"""
+    import io
+    import gtirb
+    import gtirb.version
+    import core
+    from gtirb.proto import IR_pb2
+    for v in (0, 1, 3, gtirb.version.PROTOBUF_VERSION, 5, 2**32 - 1,
+              ctx.rng.randrange(6, 2**32)):
+        ir = gtirb.IR(version=v)
+        gtirb.Module(name="m", ir=ir)
+        buf = io.BytesIO()
+        try:
+            with core.time_limit(20):
+                ir.save_protobuf_file(buf)
+            raw = buf.getvalue()
+            msg = IR_pb2.IR()
+            msg.ParseFromString(raw[8:])
+            got = (raw[:5], raw[7], msg.version)
+        except (Exception, core.ImplTimeout) as e:   # noqa
+            got = ("raised", type(e).__name__, None)
+        ctx.evaluations += 1
+        ctx.count("writer-version-probe")
+        ctx.nontriv(("writer-version", v == gtirb.version.PROTOBUF_VERSION))
+        want = (b"GTIRB", gtirb.version.PROTOBUF_VERSION, v)
+        if got != want:
+            ctx.report({"kind": "writer-field-mismatch", "field": "version"},
+                       {"ir_version": v, "got": repr(got)},
+                       "IR(version=%d) was written as header/version %r, the "
+                       "schema says header version %d and field version %d"
+                       % (v, got[1:], want[1], want[2]))
+            return
+
+
 def run(ctx):
     msg_stream.run(ctx, {"C02"})
+    if not ctx.violations:
+        writer_version_probe(ctx)
 
 
 def search(ctx, broken):
